@@ -148,3 +148,41 @@ func LeanList(name, doc string, l []string) string {
 	b.WriteString("]\n\n")
 	return b.String()
 }
+
+// LeanName makes a Lean identifier out of a receiver type and a function name.
+func LeanName(fd *ast.FuncDecl) string {
+	n := fd.Name.Name
+	if fd.Recv != nil && len(fd.Recv.List) == 1 {
+		r := strings.TrimPrefix(Src(fd.Recv.List[0].Type), "*")
+		n = r + "_" + n
+	}
+	return "f_" + n
+}
+
+// AllFuncs emits every function of a file that has a body (in source order).
+func AllFuncs(f *ast.File, b *strings.Builder) {
+	for _, d := range f.Decls {
+		fd, ok := d.(*ast.FuncDecl)
+		if !ok || fd.Body == nil {
+			continue
+		}
+		b.WriteString(LeanList(LeanName(fd), strings.TrimPrefix(LeanName(fd), "f_"), Lines(fd)))
+	}
+}
+
+// SomeFuncs emits the named functions (LeanName without the f_ prefix) of a file.
+func SomeFuncs(prog string, f *ast.File, names []string, b *strings.Builder) {
+	for _, want := range names {
+		found := false
+		for _, d := range f.Decls {
+			fd, ok := d.(*ast.FuncDecl)
+			if ok && fd.Body != nil && LeanName(fd) == "f_"+want {
+				b.WriteString(LeanList(LeanName(fd), want, Lines(fd)))
+				found = true
+			}
+		}
+		if !found {
+			Fail(prog, "function not found: "+want)
+		}
+	}
+}
